@@ -395,8 +395,10 @@ func runC47(x *simkit.Exec) {
 	nOps := x.Range("ops", 2, 12)
 	var ops []c47Op
 	present := map[string]bool{}
-	for f := range w.files {
+	lastContent := map[string]c47File{}
+	for f, c := range w.files {
 		present[f] = true
+		lastContent[f] = c
 	}
 	envSerial := 0
 	for i := 0; i < nOps; i++ {
@@ -419,7 +421,12 @@ func runC47(x *simkit.Exec) {
 		switch {
 		case !present[op.file]:
 			op.kind, op.f = "add", newContent(false)
+			if old, was := lastContent[op.file]; was && x.Bool("restore-identical", 1, 2) {
+				// a removed file comes back exactly as it was
+				op.f = old
+			}
 			present[op.file] = true
+			lastContent[op.file] = op.f
 		case op.file != w.cfgFile && x.Bool("remove", 1, 3):
 			op.kind = "remove"
 			present[op.file] = false
@@ -427,6 +434,7 @@ func runC47(x *simkit.Exec) {
 			op.kind = "touch"
 		default:
 			op.kind, op.f = "edit", newContent(false)
+			lastContent[op.file] = op.f
 		}
 		ops = append(ops, op)
 	}
